@@ -510,7 +510,6 @@ def prepost_clause(ctx, name, text, r, stats):
     pre, post = r.get('snap'), r.get('snap_post')
     if not pre or not post:
         return
-    import pint
     ureg = None
     for comp in ('reserv', 'wellbores', 'surfaceplant', 'economics'):
         for attr, a in pre.get(comp, {}).items():
@@ -527,7 +526,6 @@ def prepost_clause(ctx, name, text, r, stats):
                 continue
             try:
                 if ureg is None:
-                    from geophires_x.GeoPHIRESUtils import UpgradeSymbologyOfUnits  # noqa: F401
                     from geophires_x.Units import get_unit_registry, convertible_unit
                     ureg = get_unit_registry()
                 import numpy as np
